@@ -25,6 +25,8 @@ type upFault struct {
 	At     int    // offset in the raw request stream (head + chunked body) at which it fires; -1 = after the complete body
 	Drain  bool   // 5xx only: keep reading the rest of the body after answering
 	Linger time.Duration
+	// RetryAfter, if not empty, is sent as Retry-After with a 503
+	RetryAfter string
 }
 
 type rawAttempt struct {
@@ -196,11 +198,15 @@ func (p *rawProxy) sink(c *sim.Conn, at *rawAttempt, buf *[]byte, headLen int, f
 			answered = true
 			at.Acked = 503
 			at.AckedAt = p.w.K.Now()
+			ra := ""
+			if f.RetryAfter != "" {
+				ra = "Retry-After: " + f.RetryAfter + "\r\n"
+			}
 			if f.Drain {
-				fmt.Fprintf(c, "HTTP/1.1 503 Service Unavailable\r\nContent-Length: 8\r\n\r\ninjected")
+				fmt.Fprintf(c, "HTTP/1.1 503 Service Unavailable\r\n%sContent-Length: 8\r\n\r\ninjected", ra)
 				return false, true
 			}
-			fmt.Fprintf(c, "HTTP/1.1 503 Service Unavailable\r\nConnection: close\r\nContent-Length: 8\r\n\r\ninjected")
+			fmt.Fprintf(c, "HTTP/1.1 503 Service Unavailable\r\n%sConnection: close\r\nContent-Length: 8\r\n\r\ninjected", ra)
 			if f.Linger > 0 {
 				time.Sleep(f.Linger)
 			}
@@ -412,6 +418,7 @@ func worldC06(w *World) {
 				case 7, 8:
 					f.At = -1 // after the complete body
 				}
+				f.RetryAfter = []string{"", "", "0", "1", "Thu, 01 Jan 2015 00:00:00 GMT"}[t.Choice(5, "retryafter")]
 				f.Drain = t.Choice(2, "drain") == 1
 				f.Linger = []time.Duration{0, 50 * time.Millisecond, 2 * time.Second}[t.Choice(3, "linger")]
 				rp.faults[r.id] = append(rp.faults[r.id], f)
